@@ -130,9 +130,9 @@ class _Identity:
         return p
 
 
-def _install(m):
+def _install(m, always=False):
     """make `from matplotlib.patches import X` (done inside as_artist) pick the recorders"""
-    if not m.sym:
+    if not m.sym and not always:
         return
     import matplotlib  # noqa
     fake_p = types.ModuleType('matplotlib.patches')
@@ -389,9 +389,7 @@ def h_kwargs(kind, m):
     """visual attributes become artist keywords; caller keywords override them"""
     from regions import (CirclePixelRegion, PointPixelRegion, TextPixelRegion, PixCoord, RegionVisual, LinePixelRegion,
                          CircleAnnulusPixelRegion)
-    if not m.sym:
-        return
-    _install(m)
+    _install(m, always=True)          # keyword bookkeeping is checked on the recording artists in replay too
     c = PixCoord(1.0, 2.0)
     vis = {'circle': {'color': 'red', 'linewidth': 3, 'fill': True}, 'point': {'color': 'red', 'symsize': 9, 'linewidth': 3},
            'text': {'color': 'red', 'fontsize': 12, 'textangle': 30, 'linewidth': 3},
@@ -415,6 +413,10 @@ def h_kwargs(kind, m):
     m.require('the other visual attributes are still applied',
               all(over.get(k) == v for k, v in expected.items() if k != key_override[0]))
     m.require('the stored visual dict is not modified', dict(reg.visual) == vis)
+    again = _kw(reg.as_artist())
+    m.require('a later call without keywords is not affected by the overrides of an earlier call', again == plain)
+    other = _kw(mk(vis).as_artist())
+    m.require('a second region with an equal visual gets the same keywords', other == plain)
 
 
 def h_bbox(m):
